@@ -191,6 +191,9 @@ Definition k_meta (x : sigt) : list Z :=
   | Ok _ => match metadata x with JIface ms => flat_map (fun nj => fst nj :: e_json (snd nj)) ms | _ => [] end
   end.
 
+(* a fresh Signature built from the flipped members (no FlippedSignature wrapper) *)
+Definition mirror_sig (x : sigt) : sigt := (false, sig_members (sig_flip x)).
+
 (* ---- SPEC-level answers (what the property statement demands; used to re-find the recorded defects) ---- *)
 (* every created interface complies and flattens to the leaves of the specification *)
 Definition e_sleaf (l : sleaf) : list Z :=
